@@ -156,11 +156,29 @@ def r2(ctx):
     ctx.check(saw_yield, "__init__:CodeBase.__iter__:yields", "no yield found on any path", f.loc())
     # directories are resolved at construction
     init = cb.find_method("__init__")
-    ok = any(isinstance(s, ast.Assign) and u(s.targets[0]) == "self._directories" and u(s.value) == "[Path(d).resolve() for d in directories]" for s in init.node.body)
-    ctx.soft(ok, "__init__:CodeBase.__init__:directories-resolved", "code-base directories must be stored resolved (membership compares resolved paths)", init.loc())
+    # decision tables: the directories are stored resolved, and the property hands out exactly those (as text):
+    # membership compares the RESOLVED candidate lexically against them
+    from ..spec import tab as _tab, vt as _vt
+
+    dirp = init.node.args.vararg.arg if init.node.args.vararg is not None else init.params[1]
+    n_i = 0
+    for p in _tab(init, unroll=1):
+        st_ = {_vt(e[1]): _vt(e[2]) for e in p.effects if e[0] == "store"}
+        if "self._directories" not in st_:
+            continue
+        n_i += 1
+        got = st_["self._directories"]
+        ok = re.fullmatch(r"comp:\[(pathlib\.)?Path\(_c0\)\.resolve\(\) for _c0 in " + re.escape(dirp) + r"\]", got) is not None or got in (f"comp:[Path(os.path.realpath(_c0)) for _c0 in {dirp}]",)
+        ctx.check(ok, "__init__:CodeBase.__init__:directories-resolved", f"the code-base directories must be stored RESOLVED (symlinks and `..` removed), because membership resolves the candidate and compares lexically: stored as `{got[:100]}`", init.loc())
+    if not n_i:
+        raise AnalysisError("CodeBase.__init__: no path stores self._directories")
     d = cb.find_method("directories")
-    ok = d is not None and any(isinstance(s, ast.Return) and u(s.value) == "[str(d) for d in self._directories]" for s in d.node.body)
-    ctx.soft(ok, "__init__:CodeBase.directories", "directories property must expose the resolved directories", d.loc() if d else cb.loc())
+    if d is None:
+        raise AnalysisError("CodeBase.directories missing")
+    for p in _tab(d, unroll=1):
+        res = _vt(p.result[1]) if p.result[0] == "return" else ""
+        ok = res in ("comp:[str(_c0) for _c0 in self._directories]", "comp:[os.fspath(_c0) for _c0 in self._directories]", "list(map(str, self._directories))")
+        ctx.check(ok, "__init__:CodeBase.directories", f"the directories property must hand out the stored (resolved) directories as text: returns `{res[:100]}`", d.loc())
     ctx.floor(4)
 
 
@@ -193,6 +211,14 @@ def r3(ctx):
             k2 = k
             subj.add(k2.split(" In ", 1)[0] if " In " in k2 else next((x for x in k2.split(" Eq ") if not (x.startswith("'") or x.startswith('"'))), k2))
         key = "source:is_source_file:suffix-in-table:" + ",".join(f"{int(v)}" for v in tests.values())
+        if not tests and p.result[0] == "return":
+            rt_ = vtext(p.result[1])
+            m_ = re.fullmatch(r"(.+)\.endswith\((.+)\)", rt_)
+            if m_ and p0 in m_.group(1):
+                ctx.violation("source:is_source_file:suffix-in-table:endswith", f"the name is tested with `{m_.group(1)[-40:]}.endswith(<extensions>)` instead of looking its last suffix up in the table: a file whose whole name is an extension (`.inc`, `.h`: hidden files, suffix '') becomes a source file, and FileLanguage - which goes by the suffix - knows no language for it", f.loc())
+                n_t += 1
+                n_f += 1
+                continue
         if not tests:
             raise AnalysisError(f"is_source_file: no membership test on a path: {p.describe()[:160]}")
         bad = sorted(x for x in subj if x not in LAST)
